@@ -202,15 +202,16 @@ fn get_metric_servers(path: &Path) -> Result<BTreeMap<NodeId, url::Url>> {
 fn build_prometheus_config(metrics_server_list: BTreeMap<NodeId, url::Url>) -> PrometheusConfig {
     let static_configs = metrics_server_list
         .into_iter()
-        .map(|(node_id, url)| StaticConfig {
-            targets: vec![format!(
-                "host.docker.internal:{}",
-                url.port()
-                    .expect("Port should be present for the metrics server")
-            )],
-            labels: Labels {
-                node_id: last_n_chars(&node_id, 4),
-            },
+        .filter_map(|(node_id, url)| {
+            // `port()` is `None` for a URL on its scheme's default port (`http://127.0.0.1:80/metrics`);
+            // a URL with no port at all names nothing that could be scraped
+            let port = url.port_or_known_default()?;
+            Some(StaticConfig {
+                targets: vec![format!("host.docker.internal:{port}")],
+                labels: Labels {
+                    node_id: last_n_chars(&node_id, 4),
+                },
+            })
         })
         .collect();
     PrometheusConfig {
